@@ -433,11 +433,16 @@ def run_interleaved(desc, seed, res):
         bank_obj, values = value_classes(bk)
         allv += [(bk, bank_obj, n, c, row) for (n, c, row) in values]
 
-    def mk_read(rr):
-        bk, bank_obj, name, cls, row = rr.choice(allv)
-        img = make_image(rr, bk, rr.choice(["random", "text", "random", "ones"]))
-        unit, other, bank, ob, addr = make_unit(rr, bk, img, L.BANKS[bk][0], [], rr.choice(["gear", "device", "int"]))
-        return Bus([unit, other], bound=800), cls.read(addr), lambda: (list(bank.image), bank.snapshot is not None)
+    def mk_read_of(entry):
+        def mk_read(rr):
+            bk, bank_obj, name, cls, row = entry
+            img = make_image(rr, bk, rr.choice(["random", "text", "random", "ones"]))
+            unit, other, bank, ob, addr = make_unit(rr, bk, img, L.BANKS[bk][0], [], rr.choice(["gear", "device", "int"]))
+            return Bus([unit, other], bound=800), cls.read(addr), lambda: (list(bank.image), bank.snapshot is not None)
+        return mk_read
+    r0 = rng(seed, "C09", "interleaved-classes")
+    multi = [e for e in allv if e[4].width > 1]
+    makers = {f"read:{e[2]}": mk_read_of(e) for e in r0.sample(multi, min(14, len(multi)))}
 
     def mk_all(rr):
         bk = rr.choice(BANKS)
@@ -445,7 +450,8 @@ def run_interleaved(desc, seed, res):
         img = make_image(rr, bk, rr.choice(["random", "text", "addr"]))
         unit, other, bank, ob, addr = make_unit(rr, bk, img, L.BANKS[bk][0], [], rr.choice(["gear", "device", "int"]))
         return Bus([unit, other], bound=2000), bank_obj.read_all(addr), lambda: (list(bank.image), bank.snapshot is not None)
-    pairs.differential(res, "C09", rng(seed, "C09", "interleaved"), {"read": mk_read, "read_all": mk_all}, desc["n"])
+    makers["read_all"] = mk_all
+    pairs.differential(res, "C09", rng(seed, "C09", "interleaved"), makers, desc["n"])
 
 
 def run_shard(desc, tier, seed):
